@@ -146,6 +146,43 @@ Definition gen_scales (full : t3) (res : fl * fl * fl) (target max_scales : Z)
   bind (scales_core full d t max_scales) (fun cores =>
   mapM (mk_scale r u) cores)))).
 
+(* ---------- guard for distinct keys (executable) ---------- *)
+
+(* m1 * 2^e1 = m2 * 2^e2 *)
+Definition dyadic_eqb (m1 : positive) (e1 : Z) (m2 : positive) (e2 : Z) : bool :=
+  let e := Z.min e1 e2 in Zpos m1 * 2 ^ (e1 - e) =? Zpos m2 * 2 ^ (e2 - e).
+Definition product_is (x : spec_float) (m0 : positive) (e0 : Z) : bool :=
+  match x with S754_finite false m e => dyadic_eqb m e m0 e0 | _ => false end.
+
+(* The length formatted for level l is exactly 2^l times the length formatted
+   for level 0 (and the doubled length probed by choose_unit_for_key is twice
+   it).  This holds when no axis resolution was rounded UP to its power of two
+   (the finest axis then stays the minimum at every level) and no product
+   leaves the normal range; it fails e.g. for 1.2 : 1.5 : 0.8. *)
+Definition keys_guard_at (r : f3) (u : list N * fl) (cores : list scale_core) : bool :=
+  match fmul (fmin3 r) (sf_of (snd u)) with
+  | S754_finite false m0 e0 =>
+      product_is (fmul (fmul (fmin3 r) two) (sf_of (snd u))) m0 (e0 + 1) &&
+      forallb (fun c => product_is (fmul (fmin3 (scale_resolution r (sc_factors c))) (sf_of (snd u)))
+                                   m0 (e0 + sc_level c)) cores
+  | _ => false
+  end.
+
+Definition keys_guard (full : t3) (res : fl * fl * fl) (target max_scales : Z) : bool :=
+  match target_exponent target with
+  | Ok t =>
+      let r := fmap3 sf_of res in
+      match delays r with
+      | Ok d =>
+          match choose_unit_for_key (fmin3 r), scales_core full d t max_scales with
+          | Ok u, Ok cores => keys_guard_at r u cores
+          | _, _ => false
+          end
+      | _ => false
+      end
+  | _ => false
+  end.
+
 Definition gen_delays (res : fl * fl * fl) : outcome t3 := delays (fmap3 sf_of res).
 
 (* ---------- generate_scales_info.set_info_params ---------- *)
